@@ -92,8 +92,8 @@ pub fn unit_count(prop: &str, tier: Tier) -> u64 {
     std::env::var("VERIF_UNITS").ok().and_then(|s| s.parse().ok()).unwrap_or(n)
 }
 
-fn watchdog_secs() -> u64 {
-    std::env::var("VERIF_WATCHDOG").ok().and_then(|s| s.parse().ok()).unwrap_or(20)
+pub fn watchdog_secs() -> u64 {
+    std::env::var("VERIF_WATCHDOG").ok().and_then(|s| s.parse().ok()).unwrap_or(40)
 }
 
 static EXE_OVERRIDE: Mutex<Option<std::path::PathBuf>> = Mutex::new(None);
@@ -412,7 +412,7 @@ fn shrink_in_child(case: &Case, v: &Violation) -> (Case, Violation, u64) {
 }
 
 fn shrink_with_children(case: &Case, v: &Violation) -> (Case, Violation, u64) {
-    let mut check = |c: &Case| eval_in_child(c, 5);
+    let mut check = |c: &Case| eval_in_child(c, watchdog_secs());
     let (c, v2, e) = crate::shrink::shrink_any(case, v, &mut check, 60);
     (c, v2, e as u64)
 }
@@ -564,7 +564,8 @@ fn check_pass(prop: &str, tier: Tier) -> i32 {
     for (unit, kind) in agg.hangs.iter().take(3) {
         if let Some(case) = find_stuck_case(prop, tier, seed, *unit) {
             // confirm in a child of its own (a slow machine is not a hang)
-            if let Some(v) = eval_in_child(&case, 10) {
+            // the same CPU-time limit as the worker's watchdog
+            if let Some(v) = eval_in_child(&case, watchdog_secs()) {
                 if v.class == "HANG" || v.class == "CRASH" {
                     hang_cases.push((*unit, case, v));
                     continue;
